@@ -31,6 +31,10 @@ man = {
     "engines": [
         {"name": "cbmc-c", "path": "lib/vf.py", "serves_properties": [c["property_id"] for c in checks if c["engine"] == "cbmc-c"],
          "kind_free_text": "goto-cc + cbmc 6.11 (cadical) on the real translation units; inline asm translated by lib/asm_inline.py"},
+        {"name": "asm2c", "path": "lib/asm2c.py", "serves_properties": [c["property_id"] for c in checks if c["engine"] == "asm2c"],
+         "kind_free_text": "own yasm/Intel-syntax x86-64 -> C translator (ISA semantics), output checked by cbmc against the portable C twin; native replay against the yasm-assembled kernel"},
+        {"name": "ir2smt", "path": "lib/ir2smt.py", "serves_properties": [c["property_id"] for c in checks if c["engine"] == "ir2smt"],
+         "kind_free_text": "clang++-14 -O1 LLVM IR of generated mpirxx.h expression wrappers -> SMT-LIB (own encoder), z3 with cvc5 cross-check; models replayed with g++ against the native library"},
     ],
     "checks": checks,
     "not_applicable": na,
